@@ -280,6 +280,7 @@ type HarnessResult struct {
 	Asserts    map[string]int
 	Funcs      map[string]bool
 	Witnesses  []Violation // completed, violation-free paths with a model (for translator validation)
+	Written    map[string]bool // locations (field names) written by some traced operation
 	Terms      int
 	Steps      int64
 }
@@ -422,6 +423,12 @@ func (e *Engine) RunHarness(h *HarnessSpec, workers int, deadline time.Time, wit
 				}
 				for k := range ex.funcs {
 					res.Funcs[k] = true
+				}
+				for k := range ex.writtenTags {
+					if res.Written == nil {
+						res.Written = map[string]bool{}
+					}
+					res.Written[k] = true
 				}
 				if ex.incomplete != "" {
 					res.Incomplete[ex.incomplete]++
@@ -805,7 +812,11 @@ func (ex *Exec) disciplineViolation(kind string, tag string) {
 		return
 	}
 	ex.raceSeen[id] = true
+	n0 := len(ex.violations)
 	ex.recordViolation(id, kind+" of shared state ("+tag+") at "+w, ex.pool.Bool(true))
+	for i := n0; i < len(ex.violations); i++ {
+		ex.violations[i].Tag = tag
+	}
 }
 
 func (ex *Exec) checkAccess(write, global bool, tag string) {
@@ -826,7 +837,15 @@ func (ex *Exec) checkAccess(write, global bool, tag string) {
 		if strings.HasPrefix(tag, "opt") {
 			return
 		}
+		// an unprotected read is a race only if some operation writes that location: recorded as a
+		// candidate and confirmed at the end of the run against the set of written locations
 		ex.disciplineViolation("read-without-lock", tag)
+	}
+	if write && !global {
+		if ex.writtenTags == nil {
+			ex.writtenTags = map[string]bool{}
+		}
+		ex.writtenTags[tag] = true
 	}
 }
 
